@@ -380,6 +380,13 @@ func (f Index) Iterate(fn IndexIterFunc, options *IterateOptions) (err error) {
 					return it.Error()
 				}
 			}
+		} else if !ok {
+			// no key at or after the start key: the last key is the closest one before it
+			ok = it.Last()
+		} else if !bytes.Equal(startKey, it.Key()) {
+			// the start key is not stored and the cursor is on the next greater key:
+			// going backwards starts from the closest key before the start key
+			ok = it.Prev()
 		}
 	}
 
